@@ -15,7 +15,8 @@ HDR = "Require Import OPC.Uni OPC.Names OPC.Fs.\nOpen Scope N_scope.\nDefinition
 # identifier-hostile but quote-free alphabet (the property's domain)
 WORDS = ["user", "Pet", "order item", "2fa", "class", "import", "None", "list", "type", "id", "étoile", "Größe", "naïve-bayes", "x.y", "a b c", "HTTPResponse", "getURL2",
          "__init__", "_private", "api", "models", "client", "types", "errors", "self", "cls", "json", "datetime", "Any", "Union", "match", "case", "日本", "ÅÄÖ", "snake_case",
-         "kebab-case", "dot.ted", "9lives", "-lead", "trail-", "MixedCASEName", "x", "T", "Unset", "File", "Response", "field", "définition"]
+         "kebab-case", "dot.ted", "9lives", "-lead", "trail-", "MixedCASEName", "x", "T", "Unset", "File", "Response", "field", "définition",
+         "Client", "URL", "Url", "CLIENT", "Body", "Kwargs", "2fa_verify", "$$", "Import", "Self"]
 XID_GAP = ["a²", "½cup"]          # \w but not XID_Continue: known finding xid_gap
 
 
